@@ -647,6 +647,60 @@ func (k *ksGen) prelude(in *kgInst) {
 	k.observe(in)
 }
 
+// gapAfterUnpay: the gap window must be judged against the chain AS IT IS NOW, in one process life: issue up to the
+// window boundary, pay the newest address, ask again (granted: the payment justifies it), reorganise the payment away
+// (the replacement block pays nobody of this wallet), catch up, ask again WITHOUT a restart: refused again.
+// Seed C12-5: the manager remembered script hashes the chain had once reported as used.
+func (k *ksGen) gapAfterUnpay(in *kgInst) {
+	w := in.wallets[in.order[0]]
+	for i := 0; i < in.gap+2 && in.mayIssue(w); i++ {
+		k.newaddr(in, w)
+	}
+	if in.mayIssue(w) || w.ex == 0 {
+		return // some address in the window has history already: not the situation wanted
+	}
+	k.catchUp(in)
+	k.newaddr(in, w) // refused
+	a := exName(w.name, w.ex-1)
+	k.nBlk++
+	k.nTx++
+	b := &kgBlock{name: fmt.Sprintf("B%d", k.nBlk), pays: []string{a}}
+	b.cbTx = fmt.Sprintf("C%d", k.nTx)
+	b.lines = []string{fmt.Sprintf("tx %s %d cb X1:1000;%s:%d", b.cbTx, k.nTx, a, 10+k.g.Rng.Intn(90))}
+	b.txs = []string{b.cbTx}
+	k.emitBlock(in, b)
+	in.chain = append(in.chain, b)
+	k.catchUp(in)
+	if !in.mayIssue(w) {
+		return
+	}
+	k.newaddr(in, w) // granted: the manager has now SEEN the payment
+	// reorganise the payment away
+	in.chain = in.chain[:len(in.chain)-1]
+	k.op("detach", "i %d detach", in.n)
+	if in.synced > len(in.chain) {
+		in.synced = len(in.chain)
+	}
+	k.nBlk++
+	k.nTx++
+	r := &kgBlock{name: fmt.Sprintf("B%d", k.nBlk)}
+	r.cbTx = fmt.Sprintf("C%d", k.nTx)
+	r.lines = []string{fmt.Sprintf("tx %s %d cb X1:1000", r.cbTx, k.nTx)}
+	r.txs = []string{r.cbTx}
+	k.emitBlock(in, r)
+	in.chain = append(in.chain, r)
+	k.catchUp(in)
+	for i := 0; i < in.gap+1; i++ {
+		ok := in.mayIssue(w)
+		k.newaddr(in, w)
+		if !ok {
+			k.g.Stats["newaddr-refused-after-unpay"]++
+			break
+		}
+	}
+	k.observe(in)
+}
+
 func genKs(g *Gen) {
 	nHist := g.Scale(24, 420)
 	for h := 0; h < nHist; h++ {
@@ -664,6 +718,9 @@ func genKs(g *Gen) {
 			g.Stats["second-wallet"]++
 		}
 		k.prelude(in1)
+		if h%3 == 0 {
+			k.gapAfterUnpay(in1)
+		}
 		steps := 6 + g.Rng.Intn(g.Scale(22, 40))
 		for s := 0; s < steps; s++ {
 			k.step(in1)
